@@ -173,11 +173,17 @@ def _winit(tmp):
     import warnings
     warnings.simplefilter('ignore')
     TMP = tmp
-    core.load_lib()
-    POOL = json.load(open(os.path.join(tmp, 'pool.json')))
+    try:
+        core.load_lib()
+        POOL = json.load(open(os.path.join(tmp, 'pool.json')))
+    except BaseException:
+        import traceback
+        POOL = {'init_error': traceback.format_exc()}
 
 
 def _wrun(hists):
+    if isinstance(POOL, dict) and 'init_error' in POOL:
+        raise RuntimeError('worker initialisation failed:\n' + POOL['init_error'])
     out = []
     n = len(POOL)
     for h in hists:
